@@ -103,7 +103,7 @@ Theorem FA_unlink_frees_all f m :
   let t' := ftbl (unlink_chain P f (hd 0 m)) in
   length t' = length (ftbl f) /\
   (forall c, In c m -> get t' c = 0) /\ (forall c, ~ In c m -> get t' c = get (ftbl f) c).
-Proof. apply (unlink_frees_all P POK cs limit CS LIM). Qed.
+Proof. apply unlink_frees_all; assumption. Qed.
 
 Theorem FA_two_files_frame o st m2 s2 :
   st_wf P cs limit st -> file_wf P cs limit (tbl st) m2 s2 ->
